@@ -69,6 +69,8 @@ type Config struct {
 	// marshaler (the configuration of TestNilValues: ValuesLike=nil, values are
 	// not retrievable after a reload, only membership is)
 	RegisteredTypes bool
+	// RetainStore: the store keeps the byte slices it is handed (no copy)
+	RetainStore bool
 	// MarshalNL: the user marshaler is a json.Encoder (its output ends in a newline), v1marshaler only
 	MarshalNL bool
 	// MinEntries: when versions (subsets of the universe) are enumerated, only those with at least this many entries
